@@ -111,6 +111,8 @@ class _SourceFileParams(_FileParamsBase):
     def reset(self) -> None:
         self.empty_file = False
         super().reset()
+        # Same value as for a newly created handler, see empty()
+        self.file_size = 0
 
 
 @dataclass
